@@ -3,7 +3,7 @@ sys.path.insert(0, os.path.dirname(os.path.abspath(__file__)))
 from _base import fl, serve
 import persim
 from persim import PersLandscapeExact, PersLandscapeApprox
-from algebra import content
+from algebra import content, forced
 
 
 def num(x):
@@ -24,21 +24,26 @@ def handler(job):
     mk = job["make"]
     def build(m):
         if m["t"] == "dgm":
-            return PersLandscapeExact(dgms=[np.array(m["bars"], dtype=float).reshape(-1, 2)], hom_deg=0)
+            return PersLandscapeExact(dgms=[np.array(m["bars"], dtype=float).reshape(-1, 2)], hom_deg=0, compute=not m.get("lazy"))
         if m["t"] == "cp":
             return PersLandscapeExact(critical_pairs=[[list(p) for p in d] for d in m["cps"]], hom_deg=0)
         if m["t"] == "adgm":
-            return PersLandscapeApprox(dgms=[np.array(m["bars"], dtype=float).reshape(-1, 2)], hom_deg=0, start=m["start"], stop=m["stop"], num_steps=m["n"])
+            return PersLandscapeApprox(dgms=[np.array(m["bars"], dtype=float).reshape(-1, 2)], hom_deg=0, start=m["start"], stop=m["stop"], num_steps=m["n"], compute=not m.get("lazy"))
         if m["t"] == "avals":
-            return PersLandscapeApprox(values=np.array(m["vals"], dtype=float), hom_deg=0, start=m["start"], stop=m["stop"], num_steps=m["n"])
+            return PersLandscapeApprox(values=np.array(m["vals"], dtype=int if m.get("int") else float), hom_deg=0, start=m["start"], stop=m["stop"], num_steps=m["n"])
         if m["t"] == "sub":
             return build(m["a"]) - build(m["b"])
         if m["t"] == "lin":
             return m["ca"] * build(m["a"]) + m["cb"] * build(m["b"])
     o = build(mk)
-    if isinstance(o, PersLandscapeExact):
+    if isinstance(o, PersLandscapeExact) and not mk.get("lazy"):
         o.compute_landscape()
-    out = {"content": content(o), "norms": {}}
+    out = {"content": content(forced(o)), "norms": {}}     # (a lazily built object is left untouched: the content comes from a computed deep copy)
+    if mk.get("lazy") and mk.get("first") == "sup":
+        try:
+            out["sup"] = num(o.sup_norm())
+        except Exception as e:
+            out["sup"] = "raised:" + type(e).__name__
     for p in job["ps"]:
         with np.errstate(all="ignore"), warnings.catch_warnings():
             warnings.simplefilter("ignore")
@@ -46,10 +51,11 @@ def handler(job):
                 out["norms"][str(p)] = num(o.p_norm(p))
             except Exception as e:
                 out["norms"][str(p)] = "raised:" + type(e).__name__
-    try:
-        out["sup"] = num(o.sup_norm())
-    except Exception as e:
-        out["sup"] = "raised:" + type(e).__name__
+    if "sup" not in out:
+        try:
+            out["sup"] = num(o.sup_norm())
+        except Exception as e:
+            out["sup"] = "raised:" + type(e).__name__
     return out
 
 
